@@ -1,6 +1,59 @@
-"""Design-phase check: which candidate 'realistic' mutants survive the repository's own test suite."""
+"""Design-phase check: which candidate 'realistic' mutants survive the repository's own test suite.
+Copies /repo to /tmp/mut/<name>, applies one textual edit, runs the full suite there, deletes the copy.
+Verdicts observed on 2026-09-29 are in the trailing comments (SURVIVES = all 410 tests pass)."""
 import os, shutil, subprocess, sys, json, concurrent.futures as cf
 MUTANTS = [
+ # ---- batch 1 ----
+ ("M01_C02_halt_no_coolant_check", "gscrib/gcode_state.py", '            self._ensure_coolant_is_inactive("Halt with coolant on.")\n', ''),  # killed
+ ("M02_C01_to_distance_mode_no_sub", "gscrib/gcode_core.py", "            point.resolve() - origin\n            if self.distance_mode.is_relative else", "            point.resolve()\n            if self.distance_mode.is_relative else"),  # killed
+ ("M03_C03_feed_no_bounds", "gscrib/gcode_state.py", '        self._user_bounds.validate("feed-rate", speed)\n', ''),  # SURVIVES
+ ("M04_C04_chain_right_multiply", "gscrib/geometry/transform.py", "self._set_matrix(translated_matrix @ self._matrix)", "self._set_matrix(self._matrix @ translated_matrix)"),  # killed
+ ("M05_C07_no_S_tracking", "gscrib/gcode_builder.py", '        if params.get("S") is not None:\n            self.state._set_tool_power(params.get("S"))\n', ''),  # SURVIVES
+ ("M06_C08_precision_minus_one", "gscrib/formatters/default_formatter.py", "precision=self._decimal_places,", "precision=max(self._decimal_places - 1, 0),"),  # killed
+ ("M07_C10_enforce_strict", "gscrib/enums/types/direction.py", "            if angle >= 0:", "            if angle > 0:"),  # killed
+ ("M08_C12_tolerance_half", "gscrib/geometry/tracer.py", "tolerance = resolution / 10", "tolerance = resolution / 2"),  # killed
+ ("M09_C13_save_no_copy", "gscrib/geometry/transformer.py", "            transform = copy.deepcopy(self._current_transform)\n            self._transforms_stack.append(transform)", "            transform = self._current_transform\n            self._transforms_stack.append(transform)"),  # killed
+ ("M10_C14_add_writer_dups", "gscrib/gcode_core.py", "        if not writer in self._writers:\n            self._writers.append(writer)", "        self._writers.append(writer)"),  # SURVIVES
+ ("M11_C17_rfind", "gscrib/printrun/device.py", "eol = chunk.find(b'\\n')", "eol = chunk.rfind(b'\\n')"),  # SURVIVES
+ ("M12_C18_last_wins", "gscrib/writers/printrun_writer.py", "        if key not in self._reported_params:\n            self._reported_params.add(key)\n            self._current_params[key] = value", "        if True:\n            self._reported_params.add(key)\n            self._current_params[key] = value"),  # SURVIVES
+ ("M13_C20_hook_target_relative", "gscrib/gcode_builder.py", "            target = self.to_absolute(point)\n\n            for hook", "            target = point.resolve()\n\n            for hook"),  # killed
+ ("M14_C15_checksum_no_prefix", "gscrib/printrun/printcore.py", 'command = prefix + "*" + str(self._checksum(prefix))', 'command = prefix + "*" + str(self._checksum(command))'),  # killed
+ ("M15_C16_clear_after_send", "gscrib/writers/printrun_writer.py", "        self._ack_event.clear()\n        self._device.send(command)", "        self._device.send(command)\n        self._ack_event.clear()"),  # SURVIVES
+ ("M16_C19_swap_xy", "gscrib/heightmaps/raster_heightmap.py", "self._interpolator(y, x)[0, 0]", "self._interpolator(x, y)[0, 0]"),  # SURVIVES
+ ("M17_C11_abs_list_no_accumulate", "gscrib/gcode_core.py", "                current += Point(*point).resolve()\n                results.append(current)", "                results.append(current + Point(*point).resolve())"),  # killed
+ ("M18_C02_power_off_keeps_flag", "gscrib/gcode_state.py", "        self._set_tool_power(power)\n        self._is_tool_active = (mode != PowerMode.OFF)", "        self._set_tool_power(power)\n        self._is_tool_active = self._is_tool_active or (mode != PowerMode.OFF)"),  # killed
+ ("M19_C01_mask_wrong", "gscrib/geometry/point.py", "            self.x if x is None else None,\n            self.y if y is None else None,", "            self.x if x is None else None,\n            self.y if x is None else None,"),  # killed
+ ("M20_C06_emergency_order", "gscrib/gcode_builder.py", "        self.tool_off()\n        self.coolant_off()\n        self.comment(f\"Emergency halt: {message}\")", "        self.coolant_off()\n        self.tool_off()\n        self.comment(f\"Emergency halt: {message}\")"),  # SURVIVES
+ ("M21_C04_rel_uses_target", "gscrib/gcode_core.py", "move = (target - origin) if is_relative else target", "move = target"),  # killed
+ ("M22_C12_oversample_1x", "gscrib/geometry/tracer.py", "num_segments = max(2, int(10 * length / resolution))", "num_segments = max(2, int(length / resolution))"),  # SURVIVES
+ ("M23_C07_halt_wrong_temp", "gscrib/gcode_builder.py", "            elif mode == HaltMode.WAIT_FOR_HOTEND:\n                self.state._set_target_hotend_temperature(temperature)", "            elif mode == HaltMode.WAIT_FOR_HOTEND:\n                self.state._set_target_bed_temperature(temperature)"),  # SURVIVES
+ ("M24_C10_arc_radius_center_sign", "gscrib/geometry/tracer.py", "        if is_clockwise == (radius > 0):", "        if is_clockwise != (radius > 0):"),  # SURVIVES
+ # ---- batch 2 ----
+ ("N01_C01_ctx_no_finally", "gscrib/gcode_core.py", "        mode = DistanceMode.ABSOLUTE\n        previous = self._distance_mode\n\n        if mode != self._distance_mode:\n            self.set_distance_mode(mode)\n\n        try:\n            yield\n        finally:\n            if previous != self._distance_mode:\n                self.set_distance_mode(previous)\n", "        mode = DistanceMode.ABSOLUTE\n        previous = self._distance_mode\n\n        if mode != self._distance_mode:\n            self.set_distance_mode(mode)\n\n        yield\n\n        if previous != self._distance_mode:\n            self.set_distance_mode(previous)\n"),  # SURVIVES
+ ("N02_C01_probe_no_mask", "gscrib/gcode_builder.py", "        target_axes = target_axes.mask(move.x, move.y, move.z)\n", "        target_axes = target_axes\n"),  # killed
+ ("N03_C01_move_abs_uses_to_absolute", "gscrib/gcode_core.py", "        move, params, comment = self._process_move_params(point, **kwargs)\n        target_axes = self._current_axes.replace(*move)\n\n        with self.absolute_mode():\n            statement, params = self._prepare_move(move, params, comment)", "        move, params, comment = self._process_move_params(point, **kwargs)\n        target_axes = self.to_absolute(move)\n\n        with self.absolute_mode():\n            statement, params = self._prepare_move(move, params, comment)"),  # killed
+ ("N04_C02_wait_skips_guard", "gscrib/gcode_state.py", "        if mode != HaltMode.OFF:\n            self._ensure_tool_is_inactive(\"Halt with tool on.\")", "        if mode not in (HaltMode.OFF, HaltMode.WAIT_FOR_MOTION):\n            self._ensure_tool_is_inactive(\"Halt with tool on.\")"),  # SURVIVES
+ ("N05_C04_combine_ignores_coupling", "gscrib/geometry/point.py", "        x = m.x if self.x is not None or o.x != t.x else None", "        x = m.x if self.x is not None else None"),  # SURVIVES
+ ("N06_C08_tool_on_raw_number", "gscrib/gcode_builder.py", "        self.state._set_spin_mode(mode, speed)\n        params = self.format.parameters({ \"S\": speed })", "        self.state._set_spin_mode(mode, speed)\n        params = \"S\" + str(speed)"),  # killed
+ ("N07_C11_abs_list_drops_carry", "gscrib/gcode_core.py", "                current = current.replace(*point)\n                results.append(current)", "                current = Point(*point).resolve()\n                results.append(current)"),  # killed
+ ("N08_C13_revert_forgets_stack", "gscrib/geometry/transformer.py", "        self._current_transform = state[0]\n        self._transforms_stack = state[1]", "        self._current_transform = state[0]"),  # killed
+ ("N09_C15_sentlines_off_by_one", "gscrib/printrun/printcore.py", "                self.sentlines[lineno] = command", "                self.sentlines[lineno + 1] = command"),  # SURVIVES
+ ("N10_C15_resend_no_increment", "gscrib/printrun/printcore.py", "            self.resendfrom += 1\n            return", "            self.resendfrom = -1\n            return"),  # SURVIVES
+ ("N11_C20_track_before_hooks", "gscrib/gcode_builder.py", "        if len(self._hooks) > 0:\n            origin = self.position.resolve()\n            target = self.to_absolute(point)\n\n            for hook in self._hooks:\n                params = hook(origin, target, params, self.state)\n\n        self._track_move_params(params)", "        self._track_move_params(params)\n\n        if len(self._hooks) > 0:\n            origin = self.position.resolve()\n            target = self.to_absolute(point)\n\n            for hook in self._hooks:\n                params = hook(origin, target, params, self.state)\n"),  # SURVIVES
+ ("N12_C20_extrusion_uses_z", "gscrib/hooks/extrusion_hook.py", "segment_length = math.hypot(dt.x, dt.y)", "segment_length = math.hypot(dt.x, dt.y, dt.z)"),  # SURVIVES
+ ("N13_C03_within_bounds_strict_upper", "gscrib/geometry/point.py", "                (min_bound <= value <= max_bound)", "                (min_bound <= value < max_bound)"),  # SURVIVES
+ ("N14_C03_set_axis_skips_state", "gscrib/gcode_builder.py", "        target_axes = self._current_axes.replace(*point)\n        statement = self._get_statement(mode, params, comment)\n\n        self._update_axes(target_axes, params)", "        target_axes = self._current_axes.replace(*point)\n        statement = self._get_statement(mode, params, comment)\n\n        GCodeCore._update_axes(self, target_axes, params)"),  # SURVIVES
+ ("N15_C10_helix_turns_off_by_one", "gscrib/geometry/tracer.py", "total_angle = base_angle + turn_angle * (turns - 1)", "total_angle = base_angle + turn_angle * turns"),  # SURVIVES
+ ("N16_C10_arc_z_not_linear", "gscrib/geometry/tracer.py", "            z = o.z + thetas * height\n            return np.column_stack((x, y, z))\n\n        total_length = np.hypot(radius * total_angle, height)", "            z = o.z + thetas * thetas * height\n            return np.column_stack((x, y, z))\n\n        total_length = np.hypot(radius * total_angle, height)"),  # SURVIVES
+ ("N17_C07_units_no_rescale", "gscrib/gcode_builder.py", "            self.set_resolution(length_units.scale(in_px))\n", ""),  # SURVIVES
+ ("N18_C14_teardown_no_clear", "gscrib/gcode_core.py", "            writer.disconnect(wait)\n\n        self._writers.clear()", "            writer.disconnect(wait)"),  # SURVIVES
+ ("N19_C17_drop_remainder", "gscrib/printrun/device.py", "                if eol + 1 < len(chunk):\n                    self._read_buffer.append(chunk[(eol+1):])", "                if eol + 2 < len(chunk):\n                    self._read_buffer.append(chunk[(eol+1):])"),  # SURVIVES
+ ("N20_C18_fs_outside_status", "gscrib/writers/printrun_writer.py", 'elif key == "FS" and message.startswith("<"):', 'elif key == "FS":'),  # SURVIVES
+ ("N21_C19_filter_prev_sample", "gscrib/heightmaps/raster_heightmap.py", "            if abs(point[2] - last_z) >= tolerance:\n                lines.append(point)\n                last_z = point[2]", "            if abs(point[2] - last_z) >= tolerance:\n                lines.append(point)\n            last_z = point[2]"),  # SURVIVES
+ ("N22_C16_ok_anywhere", "gscrib/writers/printrun_writer.py", "            if lower_message.startswith(SUCCESS_PREFIXES):", "            if 'ok' in lower_message:"),  # SURVIVES
+ ("N23_C06_coolant_off_guard", "gscrib/gcode_state.py", "        if mode != CoolantMode.OFF:\n            self._ensure_coolant_is_inactive(\"Coolant already active.\")", "        if mode != CoolantMode.OFF:\n            self._ensure_coolant_is_inactive(\"Coolant already active.\")\n        else:\n            self._ensure_tool_is_inactive(\"Stop the tool first.\")"),  # SURVIVES
+ ("N24_C12_filter_no_reset", "gscrib/geometry/tracer.py", "            if remaining < tolerance:\n                remaining = resolution\n                continue", "            if remaining < tolerance:\n                remaining += resolution\n                continue"),  # SURVIVES
+ # ---- batch 3 (verdicts: P01 SURVIVES, P02 killed, P03 SURVIVES, P04 SURVIVES, P05 SURVIVES, P06 SURVIVES, P07 killed, P08 killed) ----
  ("P01_C08_feed_raw_number", "gscrib/gcode_builder.py", """        self.state._set_feed_rate(speed)
         statement = self.format.parameters({ "F": speed })""", """        self.state._set_feed_rate(speed)
         statement = "F" + str(speed)"""),
